@@ -118,6 +118,13 @@ func runC05(c *mon.Ctx) {
 				files: []*gen.ZFile{{P: "zeros.bin", M: 0o644, Sz: sz, Zeros: sz}, {P: "a.go", M: 0o644, Sz: 3, Data: []byte("abc")}}}
 			c05Run(c, cs, base)
 		}
+		// three files that exceed the limit only together (every consecutive pair stays below it)
+		if id := "total-three"; c.Mine(6) && c.Want(id) {
+			half := int64(refzip.MaxZipFile) / 2
+			cs := &c05Case{id: id, family: "big", theme: "total-over-limit-by-three-files", mod: gen.ZModule{Path: "example.com/m", Version: "v1.0.0", Intent: "plain"},
+				files: []*gen.ZFile{{P: "a.bin", M: 0o644, Sz: half, Zeros: half}, {P: "b.go", M: 0o644, Sz: 3, Data: []byte("abc")}, {P: "c.bin", M: 0o644, Sz: half, Zeros: half}}}
+			c05Run(c, cs, base)
+		}
 	}
 
 	if ents, err := os.ReadDir(base); err == nil && len(ents) > 0 && c.ReplayCase == "" {
